@@ -1,4 +1,4 @@
-import SSVerif.Proofs.LexFlat
+import SSVerif.Proofs.LexFlatNodes
 /-!
 # C02 ∘ M10 — the lextree the code builds against the flat network C02's optimum is defined over
 
@@ -22,5 +22,116 @@ theorem C02_lextree_context_sets {M : Model} {li : LexIn} (h : Agree M li) {s : 
     (∀ c, c ∈ ctxList li ((ctxFlags li (fsgOf M)).2.getD s 0) ↔ c ∈ rcSet M s) ∧
     (ctxList li ((ctxFlags li (fsgOf M)).1.getD s 0)).Nodup ∧ (ctxList li ((ctxFlags li (fsgOf M)).2.getD s 0)).Nodup :=
   ⟨lc_iff h hs, rc_iff h hs, ctxList_nodup _ _, ctxList_nodup _ _⟩
+
+/-- **Every single-phone word / filler of the flat network is in the lextree the code builds** (one inclusion of "the
+unshared paths of the lextree = the instances of the flat network").  For every word arc `lid` leaving `s` whose word has one
+phone: a filler is one root-and-leaf pnode of `root[s]` that carries the arc, presents silence, accepts every context and has
+the context-independent ssid and transition matrix; any other word has, for EVERY left context `lc` of `s`, a root-and-leaf
+pnode of `root[s]` that carries the arc, presents its phone, has `lc` in its context set, the ssid of `(phone, lc, SIL)` and the
+entry penalty `(logp >> SHIFT) + wip + pip`. -/
+theorem C02_single_phone_instances_in_lextree_partial (li : LexIn) (g : SSVerif.Hist.Fsg) (hsil : li.sil < li.nCi) {s : Nat} (hs : s < li.nState)
+    {lid : Nat} (hlid : lid ∈ stateArcs g s) (h1 : (li.word (g.link lid).wid.toNat).pron.length = 1) :
+    if (li.word (g.link lid).wid.toNat).dictFiller then
+      ∃ r ∈ (buildLexTree li g).roots s,
+        Has ((buildLexTree li g).node r) s true lid (li.ciSsid ((li.word (g.link lid).wid.toNat).pron.headD 0))
+          (li.tmat ((li.word (g.link lid).wid.toNat).pron.headD 0))
+          (((g.link lid).logp >>> li.shift) + li.wip + li.pip) li.sil none ∧ AllCtx ((buildLexTree li g).node r)
+    else
+      ∀ lc ∈ ctxList li ((ctxFlags li g).1.getD s 0), ∃ r ∈ (buildLexTree li g).roots s,
+        Has ((buildLexTree li g).node r) s true lid (li.lrdiph ((li.word (g.link lid).wid.toNat).pron.headD 0) lc)
+          (li.tmat ((li.word (g.link lid).wid.toNat).pron.headD 0))
+          (((g.link lid).logp >>> li.shift) + li.wip + li.pip) ((li.word (g.link lid).wid.toNat).pron.headD 0) (some lc) :=
+  build_single li g hsil hs hlid h1
+
+/-- **Every multi-phone word instance chain of the flat network is a root-to-leaf path of the lextree the code builds** (the
+same inclusion, words of `n ≥ 2` phones; `SsidTmat`: the transition matrix of a word-internal phone is a function of its ssid,
+because the construction shares word-internal pnodes by ssid alone).  For every word arc, EVERY left context `lc` of its source
+state and EVERY right context `rc` of its target state there are a root `r` of `root[src]` (`lc` in its context set, ssid of
+`(p₀, lc, p₁)`, entry `wip + pip`), word-internal pnodes `qf 1 … qf (n−2)` (ssid / transition matrix / entry `pip` of their
+position) and a leaf `l` carrying the arc (`rc` in its context set, ssid of `(p_{n−1}, p_{n−2}, rc)`, entry
+`(logp >> SHIFT) + pip`), each a child of the one before in the sense of `fsg_search_pnode_trans`.
+Named `_partial`: the converse inclusion (the lextree has no other root-to-leaf paths) is not proved; it is what the
+structural comparison of the C02 driver checks per case. -/
+theorem C02_multi_phone_instances_in_lextree_partial (li : LexIn) (g : SSVerif.Hist.Fsg) (tm : Nat → Nat) (hsil : li.sil < li.nCi)
+    (htm : SsidTmat li tm)
+    (hpron : ∀ s, s < li.nState → ∀ lid ∈ stateArcs g s, 1 ≤ (li.word (g.link lid).wid.toNat).pron.length)
+    {s : Nat} (hs : s < li.nState) {lid : Nat} (hlid : lid ∈ stateArcs g s)
+    (h2 : 2 ≤ (li.word (g.link lid).wid.toNat).pron.length) {lc : Nat} (hlc : lc ∈ ctxList li ((ctxFlags li g).1.getD s 0)) {rc : Nat}
+    (hrc : rc ∈ ctxList li ((ctxFlags li g).2.getD (g.link lid).dst 0)) :
+    ∃ r ∈ (buildLexTree li g).roots s, ∃ (qf : Nat → Nat) (l : Nat),
+      Has ((buildLexTree li g).node r) s false 0
+        (li.ldiph ((li.word (g.link lid).wid.toNat).pron.headD 0) ((li.word (g.link lid).wid.toNat).pron.getD 1 0) lc)
+        (li.tmat ((li.word (g.link lid).wid.toNat).pron.headD 0)) (li.wip + li.pip) ((li.word (g.link lid).wid.toNat).pron.headD 0) (some lc) ∧
+      (∀ j, 1 ≤ j → j ≤ (li.word (g.link lid).wid.toNat).pron.length - 2 →
+        ((buildLexTree li g).node (qf j)).leaf = false ∧
+        ((buildLexTree li g).node (qf j)).ssid = li.internal (li.word (g.link lid).wid.toNat).dictWid j ∧
+        ((buildLexTree li g).node (qf j)).tmatid = li.tmat ((li.word (g.link lid).wid.toNat).pron.getD j 0) ∧
+        ((buildLexTree li g).node (qf j)).logs2prob = li.pip) ∧
+      Has ((buildLexTree li g).node l) s true lid
+        (li.rcSsid ((li.word (g.link lid).wid.toNat).pron.getD ((li.word (g.link lid).wid.toNat).pron.length - 2 + 1) 0)
+          ((li.word (g.link lid).wid.toNat).pron.getD ((li.word (g.link lid).wid.toNat).pron.length - 2) 0)
+          (li.rcMap ((li.word (g.link lid).wid.toNat).pron.getD ((li.word (g.link lid).wid.toNat).pron.length - 2 + 1) 0)
+            ((li.word (g.link lid).wid.toNat).pron.getD ((li.word (g.link lid).wid.toNat).pron.length - 2) 0) rc))
+        (li.tmat ((li.word (g.link lid).wid.toNat).pron.getD ((li.word (g.link lid).wid.toNat).pron.length - 2 + 1) 0))
+        (((g.link lid).logp >>> li.shift) + li.pip)
+        ((li.word (g.link lid).wid.toNat).pron.getD ((li.word (g.link lid).wid.toNat).pron.length - 2 + 1) 0) (some rc) ∧
+      ((li.word (g.link lid).wid.toNat).pron.length - 2 = 0 → l ∈ (buildLexTree li g).children r) ∧
+      (1 ≤ (li.word (g.link lid).wid.toNat).pron.length - 2 →
+        qf 1 ∈ (buildLexTree li g).children r ∧
+        (∀ j, 1 ≤ j → j < (li.word (g.link lid).wid.toNat).pron.length - 2 → qf (j + 1) ∈ (buildLexTree li g).children (qf j)) ∧
+        l ∈ (buildLexTree li g).children (qf ((li.word (g.link lid).wid.toNat).pron.length - 2))) :=
+  build_multi li g tm hsil htm hpron hs hlid h2 hlc hrc
+
+/-- **The HMM instances of the flat network are pnodes of the lextree the code builds — on root-to-leaf paths** (the inclusion
+"instances of `FlatNet.instsOfArc` ⊆ unshared paths of `buildLexTree`", in the flat model's own terms).  `M` is the flat model,
+`li` the inputs of the lextree construction with `Agree M li` (same words, silence phone, closed null arcs) and `LookAgree M li`
+(the `dict2pid` tables return what the direct model-definition lookups of `FlatNet` return, `C16_d2p_tables_exact`; same
+penalties), `SsidTmat`: the transition matrix of a word-internal phone is a function of its ssid.  For every word arc `(i, a, w)`
+of `M` with `instsOfArc M i a w = some insts`:
+* one phone: every instance is a root-and-leaf pnode of `root[a.src]` (`NodeOf`: same state, ssid, transition matrix, entry
+  penalty, arc, presented phone; the instance's left context is in the pnode's context set; a filler's pnode accepts every context);
+* `n ≥ 2` phones: for EVERY word-initial instance `R` and EVERY word-final instance `L` there is a path
+  `r → qf 1 → … → qf (n−2) → l` with `r` a root of `root[a.src]` that is `R`, `qf x.pos` the word-internal instance `x`, `l` a leaf
+  that is `L`, each pnode a child of the one before.
+`_partial`: the converse (no other root-to-leaf paths, no other context bits) is not proved. -/
+theorem C02_flat_instances_in_lextree_partial {M : Model} {li : LexIn} {tm : Nat → Nat} (h : Agree M li) (hl : LookAgree M li)
+    (htm : SsidTmat li tm) {i : Nat} {a : Arc} {w : Word} (hx : (i, a, w) ∈ wordArcs M) {insts : List Inst}
+    (hi : instsOfArc M i a w = some insts) :
+    (∀ p, w.pron = [p] → ∀ x ∈ insts, ∃ r ∈ (buildLexTree li (fsgOf M)).roots a.src,
+      NodeOf ((buildLexTree li (fsgOf M)).node r) x ∧ (w.filler = true → AllCtx ((buildLexTree li (fsgOf M)).node r))) ∧
+    (∀ p0 p1 rest, w.pron = p0 :: p1 :: rest → ∀ R ∈ insts, R.isRoot = true → ∀ L ∈ insts, L.isLeaf = true →
+      ∃ r ∈ (buildLexTree li (fsgOf M)).roots a.src, ∃ (qf : Nat → Nat) (l : Nat),
+        NodeOf ((buildLexTree li (fsgOf M)).node r) R ∧ NodeOf ((buildLexTree li (fsgOf M)).node l) L ∧
+        (∀ x ∈ insts, x.isRoot = false → x.isLeaf = false →
+          1 ≤ x.pos ∧ x.pos ≤ w.pron.length - 2 ∧ NodeOf ((buildLexTree li (fsgOf M)).node (qf x.pos)) x) ∧
+        (w.pron.length - 2 = 0 → l ∈ (buildLexTree li (fsgOf M)).children r) ∧
+        (1 ≤ w.pron.length - 2 →
+          qf 1 ∈ (buildLexTree li (fsgOf M)).children r ∧
+          (∀ j, 1 ≤ j → j < w.pron.length - 2 → qf (j + 1) ∈ (buildLexTree li (fsgOf M)).children (qf j)) ∧
+          l ∈ (buildLexTree li (fsgOf M)).children (qf (w.pron.length - 2)))) := by
+  refine ⟨fun p hp x hxm => ?_, fun p0 p1 rest hp => bridge_multi h hl htm hx hp hi⟩
+  by_cases hf : w.filler = true
+  · obtain ⟨r, hr, h1, h2⟩ := bridge_filler h hl hx hp hf hi x hxm
+    exact ⟨r, hr, h1, fun _ => h2⟩
+  · have hf' : w.filler = false := by simpa using hf
+    obtain ⟨r, hr, h1⟩ := bridge_single h hl hx hp hf' hi x hxm
+    exact ⟨r, hr, h1, fun h0 => absurd h0 hf⟩
+
+/-- **Conversely, every pnode of the lextree the code builds is an HMM instance of the flat network, and every bit of its
+context set is the context of such an instance** (the inclusion "lextree ⊆ flat network" at the level of pnodes and context
+bits: nothing is allocated and no context bit is set that the flat network does not have).  `hall`: the flat model has all the
+model-definition entries its instances need (`instsOfArc` returns a list for every word arc — the C02 driver computes them all).
+For every pnode `x` there are a word arc `(i, a, w)` of `M` and its instances `insts` such that either `x` is an instance
+without contexts (`NodeOf`: same state, ssid, transition matrix, entry penalty, leaf flag, arc, presented phone) — the pnode of a
+single-phone filler, or a word-internal pnode — or, for EVERY bit `c` set in the pnode's context set, `x` is an instance of the
+arc whose left (word-initial pnodes, single-phone words) or right (word-final pnodes) context is `c`. -/
+theorem C02_lextree_pnodes_are_flat_instances {M : Model} {li : LexIn} (h : Agree M li) (hl : LookAgree M li)
+    (hall : ∀ i a w, (i, a, w) ∈ wordArcs M → ∃ insts, instsOfArc M i a w = some insts) :
+    ∀ x, x < (buildLexTree li (fsgOf M)).nodes.size →
+      ∃ i a w insts, (i, a, w) ∈ wordArcs M ∧ instsOfArc M i a w = some insts ∧
+        ((∃ y ∈ insts, NodeOf ((buildLexTree li (fsgOf M)).node x) y ∧ y.lc = none ∧ y.rc = none) ∨
+         (∀ c, ((buildLexTree li (fsgOf M)).node x).ctxt.testBit c = true →
+            ∃ y ∈ insts, NodeOf ((buildLexTree li (fsgOf M)).node x) y ∧ (y.lc = some c ∨ y.rc = some c))) :=
+  bridge_nodes h hl hall
 
 end SSVerif.LexFlat
